@@ -6,7 +6,8 @@ search over a sorted sequence) held for the namespace being visited
 (and is dominated by both tests failing), the tested `id` is the one whose refs
 are globbed and the delegate set comes from self.delegates(); in Storage::clean
 the whole repository is removed only when the local node's signed refs are absent;
-who may remove a repository."""
+who may remove a repository; the fetch worker recomputes the identity head (whose document
+names the delegates) after every successful fetch."""
 import re
 
 from .. import cfg, rules, flow
